@@ -8,6 +8,10 @@ PROP = dict(
         # deps must be a tuple here: run/stages.py concatenates it with a tuple
         dict(name="c09_fuzz", kind="fuzz", src="fuzz/c09_parse.cc", deps=("harness/c09/ref.hh",), corpus="corpus/c09/fuzz", dict="fuzz/c09_parse.dict",
              max_len=512, seconds_quick=15, seconds_thorough=300, workers_quick=8, workers_thorough=16, replay_ext="fuzz"),
+        # the parse-data program (src/ParseData.cc, own main()): built from the tree under test by the driver, then harness/c09_tool.cc
+        # feeds it generated texts of 0..1 MB as a file argument, on redirected stdin and through a pipe
+        dict(name="c09_tool", kind="pydriver", driver="oracle/c09_tool.py", shards_quick=8, shards_thorough=16,
+             timeout_quick=400, timeout_thorough=1500),
     ],
     rule=("(a) round trip: every string of length <= 5 (quick) / 6 (thorough) over {\\ \" ' n ? a LF NUL} x {no mask, HEX_ONLY, alternating mask, "
           "hash-derived mask}, every byte value alone and paired with each metacharacter x 4 masks x both flags, plus rapidcheck byte strings of "
@@ -17,7 +21,15 @@ PROP = dict(
           "construction (hex pairs with separators, // and /* */ comments, \"...\" and '...' strings with escapes, ? and $ toggles, # ## ### #### "
           "decimal/negative/0x numerals in range, % and %% floats printed with %.9g/%.17g), mutated grammar texts and random texts (totality; "
           "compared with the reference interpreter when they stay inside the documented syntax), and a coverage-guided libFuzzer campaign on arbitrary "
-          "text with the same oracle; non-trivial = the text contains at least one non-hex construct. (c) dumps: every 1-4-way partition of buffers "
+          "text with the same oracle; non-trivial = the text contains at least one non-hex construct. (b2) the parse-data tool (src/ParseData.cc, built from the tree under "
+          "test): generated texts of 0..1 MB (lengths: tiny, up to 8 KiB, within 300 of every power of two from 2^12 to 2^20, log-uniform up to 1 MiB; "
+          "exhaustive part: 5 profiles x lengths {0,1,2,100,4095..4097,65535..65537,200000}) built from the documented constructs with parser "
+          "state that lives across line boundaries ($ switched on over thousands of lines with ## ### #### numerals, floats and '...' strings inside, "
+          "/* */ comments of up to 150 KB full of data look-alikes, \"...\" strings with raw newlines, a hex pair split by a newline, ? toggles); "
+          "expected bytes by construction, cross-checked with the reference interpreter; the text is delivered as a file argument, on stdin "
+          "redirected from a file and on stdin through a pipe (written in chunks of a generated size), the output taken from stdout or from the "
+          "file named by the second argument, with and without explicit '-' arguments: exit status 0 and output == expected for each delivery; the "
+          "library call on the same long text is compared too. (c) dumps: every 1-4-way partition of buffers "
           "of 0..12/20 bytes, every third/every combination of column, float-endianness, offset-width, colour, collapse and separator flags on 5 data "
           "shapes x 4 start addresses x with/without previous buffer, every size 0..48 at every alignment at 7 base addresses (incl. 2^64-80, 2^64-48, 2^64-16), plus rapidcheck dumps of 0..600 bytes with "
           "planted zero runs and float specials at start addresses 0, aligned, unaligned, around 2^8/2^16/2^32 and near the top of the address space (dumps ending up to and including 2^64); non-trivial = "
@@ -31,7 +43,7 @@ PROP = dict(
                  "without crash and with mask.size() == data.size()",
                  "NaN fields of the float columns are compared ignoring the sign"],
     min_evaluations_quick=100000,
-    min_per_check_quick=dict(roundtrip=200000, grammar=60000, parse_any=36000, dump=40000, c09_fuzz=20000),
+    min_per_check_quick=dict(roundtrip=200000, grammar=60000, parse_any=36000, dump=40000, c09_fuzz=20000, tool=200),
     min_per_check_thorough=dict(roundtrip=2800000, grammar=700000, parse_any=1300000, dump=600000, c09_fuzz=500000),
     technique=("property-based testing + coverage-guided fuzzing: round-trip oracle for format_data_string/parse_data_string; an independently written "
                "reference interpreter of the documented data-string syntax plus by-construction expectations for grammar-generated text; an "
